@@ -5,16 +5,17 @@
 // BTreeSet rustdoc "An ordered set": the collected set contains exactly the items the iterator yields.  vstd specifies
 // `Iterator::collect` as `FromIteratorSpec::from_iter_ensures(self.remaining(), collection)` and interprets that
 // predicate for Vec only; for BTreeSet it is uninterpreted (the orphan rule forbids implementing the vstd trait for
-// BTreeSet here), so its meaning is assumed by this axiom.  Only the direction needed by callers is assumed.
+// BTreeSet here), so its meaning is assumed by this axiom.  Only the direction needed by callers is assumed, and (as in vstd's
+// own BTreeSet contracts) only for element types whose `Ord` is a lawful total order.
 pub broadcast axiom fn axiom_btree_set_from_iter<T: Ord>(remaining: Seq<T>, s: BTreeSet<T>)
     ensures
-        #[trigger] <BTreeSet<T> as vstd::std_specs::iter::FromIteratorSpec<T>>::from_iter_ensures(remaining, s)
+        vstd::laws_cmp::obeys_cmp::<T>() && #[trigger] <BTreeSet<T> as vstd::std_specs::iter::FromIteratorSpec<T>>::from_iter_ensures(remaining, s)
             ==> s@ == remaining.to_set();
 
 // A: rustdoc `impl<T: Ord, const N: usize> From<[T; N]> for BTreeSet<T>`: "Converts a [T; N] into a BTreeSet<T>.
 // If the array contains any equal values, all but one will be dropped."  The set of the array's elements.
 pub assume_specification<T: Ord, const N: usize> [<BTreeSet<T> as From<[T; N]>>::from] (a: [T; N]) -> (r: BTreeSet<T>)
-    ensures r@ == a@.to_set();
+    ensures vstd::laws_cmp::obeys_cmp::<T>() ==> r@ == a@.to_set();
 
 // A: rustdoc `impl<'a, T, A> IntoIterator for &'a BTreeSet<T, A>` ("Creates an iterator from a value"; the std source is
 // `self.iter()`): same contract as vstd's `BTreeSet::iter` ("Gets an iterator that visits the elements in the BTreeSet
@@ -29,3 +30,11 @@ pub assume_specification<'a, T, A: core::alloc::Allocator + Clone> [<&'a BTreeSe
             &&& r.decrease() is Some
         },
         r.obeys_prophetic_iter_laws();
+
+// A: rustdoc `Extend::extend`: "Extends a collection with the contents of an iterator" and `impl<T, A> Extend<T> for Vec<T, A>`
+// (the items are appended in iteration order; `Vec::extend` is `self.extend_desugared(iter.into_iter())`).  The appended
+// items are the item sequence of the iterator that `iter.into_iter()` returns.
+pub assume_specification<T, A: core::alloc::Allocator, I: IntoIterator<Item = T>> [<Vec<T, A> as Extend<T>>::extend::<I>] (v: &mut Vec<T, A>, iter: I)
+    ensures
+        exists|it: <I as IntoIterator>::IntoIter| call_ensures(<I as IntoIterator>::into_iter, (iter,), it)
+            && #[trigger] final(v)@ == old(v)@ + it.remaining();
